@@ -311,7 +311,12 @@ class Engine:
                     val = fresh(8 * n, 'ld')
                 else:
                     st.faults.append(('read outside every caller object', v, n, ins.addr if ins else None, self._where(st, v)))
-                    val = fresh(8 * n, 'oob')
+                    # bytes that do lie inside an object keep their value (an over-read does not change what the in-range bytes are)
+                    bs = []
+                    for i in range(n):
+                        r1 = self.find_region(st, v + i, 1)
+                        bs.append(r1.get(v + i - r1.base) if r1 is not None else fresh(8, 'oob'))
+                    val = Concat(*reversed(bs)) if n > 1 else bs[0]
             else:
                 off = v - rg.base
                 bs = [rg.get(off + i) for i in range(n)]
